@@ -52,45 +52,46 @@ def scan_v2(lines):
 
 
 def scan_v1(lines):
-    """Per physical line: (inside_multiline, no_blank_after).  Mirrors the
-    constructs of the 1.0 line reader: `\"...` strings that run over several
-    lines, triple-quoted comment blocks, `\\` / ` or` continuations."""
+    """Per physical line: (starts_inside_multiline, protected, no_blank_after).
+    Mirrors the constructs of the 1.0 line reader: `\"...` strings that run over
+    several lines, triple-quoted comment blocks, `\\` / ` or` continuations.  A
+    line that opens a multi-line construct starts outside (its indentation may be
+    scaled) but is protected from edits at its end."""
     out = []
     in_str = False
     in_doc = False
     cont = False
     for ln in lines:
         s = ln.strip()
-        inside = in_str or in_doc or cont
         if in_str:
             if s.endswith('"'):
                 in_str = False
-            out.append((True, in_str))
+            out.append((True, True, in_str))
             continue
         if in_doc:
             if s.endswith('"""'):
                 in_doc = False
-            out.append((True, in_doc))
+            out.append((True, True, in_doc))
             continue
         if s.startswith('"') and not s.startswith('"""') and not s.endswith('"'):
             in_str = True
-            out.append((True, True))
+            out.append((cont, True, True))
             cont = False
             continue
         if s.startswith('"""'):
             if s == '"""' or not s.endswith('"""'):
                 in_doc = True
-            out.append((True, in_doc))
+            out.append((cont, True, in_doc))
             cont = False
             continue
         if not s or s.startswith("#"):
             # a blank/comment line inside a continuation ends it in the reader;
             # we never create that situation, shipped files keep what they have
-            out.append((inside, cont))
+            out.append((cont, cont, cont))
             continue
         code = s.split("#")[0].rstrip() if "#" in s and '"' not in s else s
         cont_next = code.endswith("\\") or code.endswith(" or") or s.endswith("\\") or s.endswith(" or")
-        out.append((inside, cont_next))
+        out.append((cont, cont, cont_next))
         cont = cont_next
     return out
 
@@ -116,9 +117,9 @@ def transform(text, ver, tf, rng, dense=False):
         no_blank_after = [c for a, b, c in info]
     else:
         info = scan_v1(lines)
-        inside = [a for a, b in info]
-        triple = list(inside)
-        no_blank_after = [b for a, b in info]
+        inside = [a for a, b, c in info]
+        triple = [a or b for a, b, c in info]
+        no_blank_after = [c for a, b, c in info]
     p = 1.0 if dense else 0.4
     changed = 0
     tfs = [tf]
